@@ -348,6 +348,12 @@ def resolve(model: RefDir, op):
         if not dim:
             # a dimensionless derived type: the statement is silent
             return None
+        if kind == 'derived_type' and \
+                max(abs(v) for v in dim.values()) > 30:
+            # powers of powers of powers: scales with tens of thousands of
+            # digits cost minutes per operation (a long history of the
+            # thorough tier ran into the wall limit that way) - bounded
+            return None
         if dim_key(dim) in model.dims:
             expect = 'reject'
             if ref_sym is None and r[8] % 2:
@@ -433,6 +439,10 @@ def resolve(model: RefDir, op):
                 model.units[parent]['factor'] is None:
             return None
         k = model.units[target]['factor'] / model.units[parent]['factor']
+        if k.numerator.bit_length() > 6000 or \
+                k.denominator.bit_length() > 6000:
+            # (a ratio of some thousand digits: not spelled out)
+            return None
         return {'a': 'scaled_unit', 'type': tn, 'sym': f'u{n}',
                 'parent': parent, 'k': {'t': 'frac', 'v': str(k)},
                 'via': ['rmul', 'mul'][r[4] % 2], 'expect': 'accept',
